@@ -13,6 +13,7 @@ import (
 	berrors "github.com/nspcc-dev/bbolt/errors"
 	objectcore "github.com/nspcc-dev/neofs-node/pkg/core/object"
 	"github.com/nspcc-dev/neofs-node/pkg/local_object_storage/util/logicerr"
+	"github.com/nspcc-dev/neofs-node/pkg/util/verifhook"
 	cid "github.com/nspcc-dev/neofs-sdk-go/container/id"
 	"github.com/nspcc-dev/neofs-sdk-go/object"
 	oid "github.com/nspcc-dev/neofs-sdk-go/object/id"
@@ -141,6 +142,7 @@ func updateContainersInterruptable(db *DB, validPrefixes []byte, migrationFunc f
 		}); err != nil {
 			return err
 		}
+		verifhook.Point("meta.migrate.batch")
 		if fromBkt == nil {
 			return nil
 		}
@@ -187,6 +189,7 @@ func iterateContainerBuckets(l *zap.Logger, cs Containers, tx *bbolt.Tx, fromBkt
 }
 
 func migrateFrom9Version(db *DB) error {
+	defer verifhook.Point("meta.migrate.batch")
 	return db.boltDB.Update(func(tx *bbolt.Tx) error {
 		err := tx.DeleteBucket([]byte{unusedContainerVolumePrefix})
 		if err != nil {
@@ -225,6 +228,7 @@ func migrateFrom10Version(db *DB) error {
 		return fmt.Errorf("rewrite %q attribute values in metadata: %w", object.AttributeAssociatedObject, err)
 	}
 
+	defer verifhook.Point("meta.migrate.batch")
 	return db.boltDB.Update(func(tx *bbolt.Tx) error {
 		err := syncCounter(tx, true)
 		if err != nil {
